@@ -47,7 +47,7 @@ func init() {
 
 	// N1: peer data frames race with the handler returning (Free) and with the send loop writing the close frame.
 	vexp.Register(&vexp.Scenario{
-		Name: "c06.N1.data-vs-handler-exit", Prop: "C06", Bounds: c06Bounds,
+		Name: "c06.N1.data-vs-handler-exit", Prop: "C06", Bounds: c06Bounds, Boundary: true,
 		Doc: "server conn: receive(open A, data A, data A) || handler returns at once (Free -> close frame) || send loop",
 		Body: func(x *vexp.Ctx) {
 			handler := HandleFunc(func(ctx Context, ch Channel) status.Status { return status.OK })
@@ -120,7 +120,7 @@ func init() {
 
 	// N2: same with window frames (receiveWindow path).
 	vexp.Register(&vexp.Scenario{
-		Name: "c06.N2.window-vs-handler-exit", Prop: "C06", Bounds: c06Bounds,
+		Name: "c06.N2.window-vs-handler-exit", Prop: "C06", Bounds: c06Bounds, Boundary: true,
 		Doc: "server conn: receive(open A, window A, window A) || handler returns at once || send loop",
 		Body: func(x *vexp.Ctx) {
 			handler := HandleFunc(func(ctx Context, ch Channel) status.Status { return status.OK })
@@ -141,7 +141,7 @@ func init() {
 
 	// N3: peer close frame races with the user's Free and the send loop.
 	vexp.Register(&vexp.Scenario{
-		Name: "c06.N3.peerclose-vs-userfree", Prop: "C06", Bounds: c06Bounds,
+		Name: "c06.N3.peerclose-vs-userfree", Prop: "C06", Bounds: c06Bounds, Boundary: true,
 		Doc: "client conn: user opens channel, sends, Free || peer data+close frames || send loop",
 		Body: func(x *vexp.Ctx) {
 			s := newSeam(x, true, nil)
@@ -185,7 +185,7 @@ func init() {
 
 	// N4: SendAndClose races with peer data and window frames.
 	vexp.Register(&vexp.Scenario{
-		Name: "c06.N4.sendandclose-vs-peerdata", Prop: "C06", Bounds: c06Bounds,
+		Name: "c06.N4.sendandclose-vs-peerdata", Prop: "C06", Bounds: c06Bounds, Boundary: true,
 		Doc: "client conn: user SendAndClose then Free || peer data, window, data frames || send loop",
 		Body: func(x *vexp.Ctx) {
 			s := newSeam(x, true, nil)
@@ -229,7 +229,7 @@ func init() {
 	for _, mode := range []string{"error", "panic"} {
 		mode := mode
 		vexp.Register(&vexp.Scenario{
-			Name: "c06.N5.handler-" + mode, Prop: "C06", Bounds: c06Bounds,
+			Name: "c06.N5.handler-" + mode, Prop: "C06", Bounds: c06Bounds, Boundary: true,
 			Doc: "server conn: handler " + mode + "s || peer data, window, data frames || send loop; only the handler's own " + mode + " record may be logged",
 			Body: func(x *vexp.Ctx) {
 				handler := HandleFunc(func(ctx Context, ch Channel) status.Status {
@@ -261,7 +261,7 @@ func init() {
 
 	// N6: user Free (close frame queued) races with conn.close() and the send loop.
 	vexp.Register(&vexp.Scenario{
-		Name: "c06.N6.userfree-vs-connclose", Prop: "C06", Bounds: c06Bounds,
+		Name: "c06.N6.userfree-vs-connclose", Prop: "C06", Bounds: c06Bounds, Boundary: true,
 		Doc: "client conn: user Free queues a close frame || connection closes (closeChannels) || send loop drains the queue: the library must not panic",
 		Body: func(x *vexp.Ctx) {
 			s := newSeam(x, true, nil)
